@@ -407,6 +407,18 @@ pub fn run(ctx: &Ctx) -> (Vec<Case>, String, bool, BTreeMap<String, String>) {
         c.tag("driver-level");
     }
     cases.extend(snd);
+    // GPU backing memory (driver-owned, referred to by the live device for as long as a resource has it
+    // attached) is not handed back to the platform while attached, whatever the device answers
+    let mut gpu = crate::c20_cmd::gpu_cases(ctx, "C09", ctx.tier.pick(300, 5000));
+    for c in gpu.iter_mut() {
+        c.oracle_failures.retain(|f| f.contains("while it is attached as backing") || f.contains("no longer allocated after"));
+        for f in c.oracle_failures.iter_mut() {
+            *f = format!("[C09] {}", f);
+        }
+        c.id = format!("C09-via-{}", c.id);
+        c.tag("driver-level");
+    }
+    cases.extend(gpu);
     // the network driver's receive buffers (owned by the driver while posted): runt frames, buffers
     // held by the caller, recycling in any order
     let mut net = crate::c16_net::run(ctx).0;
